@@ -253,13 +253,8 @@ Definition ex_valid : list event := boot3 ++ [
   EKill 3; EDrop 1 3; EDrop 2 3;
   ETick 2 200 0 30 [] 0].
 
-Lemma ghost_of c evs wl gl :
-  (match grun c ginit gh0 evs with Some (_, h) => Some (wins h, grants h) | None => None end) = Some (wl, gl) ->
-  exists g gh, grun c ginit gh0 evs = Some (g, gh) /\ wins gh = wl /\ grants gh = gl.
-Proof.
-  destruct (grun c ginit gh0 evs) as [[g gh]|]; [|discriminate].
-  intros H. injection H as <- <-. eauto.
-Qed.
+Definition run_of (c : conf) (evs : list event) : gstate * ghost :=
+  match grun c ginit gh0 evs with Some p => p | None => (ginit, gh0) end.
 
 Example ex_valid_ok :
   valid [1;2;3] ex_valid = true /\
@@ -267,9 +262,9 @@ Example ex_valid_ok :
                In (1, 3, 1) (grants gh) /\ In (2, 2, 2) (grants gh).
 Proof.
   split; [vm_compute; reflexivity|].
-  destruct (ghost_of cfg_mem ex_valid [(1, 1)] [(2, 2, 2); (1, 3, 1); (1, 2, 2); (1, 1, 1)])
-    as (g & gh & E & Ew & Eg); [vm_compute; reflexivity|].
-  exists g, gh. split; [exact E|]. split; [exact Ew|]. rewrite Eg. simpl. auto 10.
+  exists (fst (run_of cfg_mem ex_valid)), (snd (run_of cfg_mem ex_valid)).
+  split; [vm_compute; reflexivity|]. split; [vm_compute; reflexivity|].
+  split; vm_compute; auto 10.
 Qed.
 
 (* ---------- C07: what a valid schedule with restarts of journaled voters is ---------- *)
@@ -316,12 +311,11 @@ Lemma restart_double_vote_refuted :
     validj [1;2;3] evs = true /\ grun c ginit gh0 evs = Some (g, gh) /\
     exists t v c1 c2, In (t, v, c1) (grants gh) /\ In (t, v, c2) (grants gh) /\ c1 <> c2.
 Proof.
-  destruct (ghost_of cfg_journal w_double [(1, 1)] [(1, 3, 2); (1, 2, 2); (1, 3, 1); (1, 1, 1)])
-    as (g & gh & E & Ew & Eg); [vm_compute; reflexivity|].
-  exists cfg_journal, w_double, g, gh.
+  exists cfg_journal, w_double, (fst (run_of cfg_journal w_double)), (snd (run_of cfg_journal w_double)).
   split; [reflexivity|]. split; [reflexivity|]. split; [reflexivity|].
-  split; [vm_compute; reflexivity|]. split; [exact E|].
-  exists 1, 3, 1, 2. rewrite Eg. simpl. split; [auto|]. split; [auto|]. discriminate.
+  split; [vm_compute; reflexivity|]. split; [vm_compute; reflexivity|].
+  exists 1, 3, 1, 2.
+  split; [vm_compute; auto 10|]. split; [vm_compute; auto 10|]. discriminate.
 Qed.
 
 Lemma two_leaders_after_restart_refuted :
@@ -330,12 +324,12 @@ Lemma two_leaders_after_restart_refuted :
     validj [1;2;3] evs = true /\ grun c ginit gh0 evs = Some (g, gh) /\
     exists t a b, In (t, a) (wins gh) /\ In (t, b) (wins gh) /\ a <> b.
 Proof.
-  destruct (ghost_of cfg_journal w_two_leaders [(1, 2); (1, 1)] [(1, 3, 2); (1, 2, 2); (1, 3, 1); (1, 1, 1)])
-    as (g & gh & E & Ew & Eg); [vm_compute; reflexivity|].
-  exists cfg_journal, w_two_leaders, g, gh.
+  exists cfg_journal, w_two_leaders,
+    (fst (run_of cfg_journal w_two_leaders)), (snd (run_of cfg_journal w_two_leaders)).
   split; [reflexivity|]. split; [reflexivity|]. split; [reflexivity|].
-  split; [vm_compute; reflexivity|]. split; [exact E|].
-  exists 1, 1, 2. rewrite Ew. simpl. split; [auto|]. split; [auto|]. discriminate.
+  split; [vm_compute; reflexivity|]. split; [vm_compute; reflexivity|].
+  exists 1, 1, 2.
+  split; [vm_compute; auto 10|]. split; [vm_compute; auto 10|]. discriminate.
 Qed.
 
 (* KF-C07-2: voter 3 votes in term 2 (acknowledging term 2), is killed and restarted, and then
@@ -358,21 +352,17 @@ Definition w_older_b : list event := [
   EDeliver 3 1 132 0 [];
   ETick 1 145 0 30 [] 0].
 
-Definition older_summary :=
-  match run_trace cfg_journal ginit w_older_a with
-  | Some g1 =>
-    match run_trace cfg_journal g1 w_older_b with
-    | Some g2 =>
-      match gstep cfg_journal g2 (EDeliver 1 3 146 0 []) with
-      | Some (_, Some (n, s)) =>
-        Some (option_map term (aget 3 (nodes g1)), hd_error (chan_get 1 3 g2) , n,
-              term (nd s), leader (nd s), outs s)
-      | _ => None
-      end
-    | None => None
-    end
-  | None => None
+Definition og1 : gstate :=
+  match run_trace cfg_journal ginit w_older_a with Some g => g | None => ginit end.
+Definition og2 : gstate :=
+  match run_trace cfg_journal og1 w_older_b with Some g => g | None => ginit end.
+Definition ores : gstate * S :=
+  match gstep cfg_journal og2 (EDeliver 1 3 146 0 []) with
+  | Some (g, Some (_, s)) => (g, s)
+  | _ => (ginit, idle_S (init_node (mk_env cfg_journal 0 0 0 [] 0) None [] 0))
   end.
+Definition ox : node :=
+  match aget 3 (nodes og1) with Some x => x | None => init_node (mk_env cfg_journal 0 0 0 [] 0) None [] 0 end.
 
 Lemma follows_older_term_refuted :
   exists c evs1 evs2 g1 g2 g3 x s tl cm pv es,
@@ -385,20 +375,12 @@ Lemma follows_older_term_refuted :
     tl < term x /\ term (nd s) = tl /\ leader (nd s) = Some 1 /\
     In (Send 1 (NextIdx tl 3 false true)) (outs s).
 Proof.
-  assert (Hsum : older_summary =
-     Some (Some 2, Some (AE 1 1 (Some (1, 0)) [mkEntry (noop_cmd 9) 2 1]), 3, 1, Some 1,
-           [Send 1 (NextIdx 1 3 false true)])) by (vm_compute; reflexivity).
-  unfold older_summary in Hsum.
-  destruct (run_trace cfg_journal ginit w_older_a) as [g1|] eqn:E1; [|discriminate].
-  destruct (run_trace cfg_journal g1 w_older_b) as [g2|] eqn:E2; [|discriminate].
-  destruct (gstep cfg_journal g2 (EDeliver 1 3 146 0 [])) as [[g3 [[n s]|]]|] eqn:E3; try discriminate.
-  injection Hsum as H1 H2 H3 H4 H5 H6.
-  destruct (aget 3 (nodes g1)) as [x|] eqn:Ex; [|discriminate]. injection H1 as H1.
-  subst n.
-  exists cfg_journal, w_older_a, w_older_b, g1, g2, g3, x, s, 1, 1, (Some (1, 0)), [mkEntry (noop_cmd 9) 2 1].
+  exists cfg_journal, w_older_a, w_older_b, og1, og2, (fst ores), ox, (snd ores),
+    1, 1, (Some (1, 0)), [mkEntry (noop_cmd 9) 2 1].
   split; [reflexivity|]. split; [reflexivity|]. split; [reflexivity|].
-  split; [vm_compute; reflexivity|]. split; [reflexivity|]. split; [reflexivity|].
-  split; [exact E2|]. split; [exact H2|]. split; [reflexivity|].
-  split; [rewrite H1; lia|]. split; [exact H4|]. split; [exact H5|].
-  rewrite H6. simpl. auto.
+  split; [vm_compute; reflexivity|]. split; [vm_compute; reflexivity|].
+  split; [vm_compute; reflexivity|]. split; [vm_compute; reflexivity|].
+  split; [vm_compute; reflexivity|]. split; [vm_compute; reflexivity|].
+  split; [vm_compute; reflexivity|]. split; [vm_compute; reflexivity|].
+  split; [vm_compute; reflexivity|]. vm_compute. auto.
 Qed.
